@@ -4,3 +4,4 @@ import MLModel.Distance
 import MLModel.Classify
 import MLModel.Calibrate
 import MLModel.Params
+import MLModel.Shape
